@@ -168,4 +168,11 @@ theorem c18_dependency_cover :
     Gen.ecUncovered.filter (fun p => !ecByDesign.contains p) = pinnedStale :=
   ⟨dependency_cover, uncovered_pinned.1⟩
 
+section NonVacuity
+/-- the hypotheses of the theorems above are met by the request and library of `Props/EnvCache.lean` and this
+sequence (further instances, out-of-scope sequences and the witnesses of the pinned residue are there) -/
+example : FreshW exWorld ∧ InvW {} exLib exWorld := ⟨FreshW.ofB (by decide), (FreshW.ofB (by decide)).inv {} exLib⟩
+example : ∀ op ∈ [Op.read 0 .params, .setStr 0 kQS cs!"b=2", .read 0 .params, .setInput 0 { st := ⟨"n=5".toUTF8.toList, []⟩ }, .read 0 .params], opWithin [.query, .params, .forms, .post, .files, .json, .body, .contentLength] notFormFraming op = true := by decide
+end NonVacuity
+
 end Ombott.EnvCache
